@@ -142,7 +142,7 @@ def run_case(case, ctx):
     path = os.path.join(ctx.workdir, "c04.nix")
     if os.path.exists(path):
         os.remove(path)
-    it = Interp(path)
+    it = Interp(path, policy=case.get("policy", "fresh"))
     nontrivial = False
     classes = set()
     try:
@@ -264,21 +264,22 @@ def _strip_refs(node):
 
 BUILD = ["mk_section", "mk_prop", "mk_group", "mk_array_ul", "mk_tag", "mk_mtag", "mk_source", "mk_feature",
          "mk_dim_range", "mk_dim_set", "mk_dim_self", "dim_link", "dim_link", "link", "link", "link", "set_meta",
-         "set_meta", "set_pos", "set_featdata", "mk_frame"]
+         "set_meta", "set_pos", "set_pos", "set_featdata", "mk_frame", "sec_link", "sec_link"]
 
 
 def case_strategy():
     S = ops.op_strategies()
     dele = st.fixed_dictionaries({
         "op": st.just("del"),
-        "k": st.sampled_from(["block", "section", "section", "prop", "group", "array", "array", "array", "frame",
-                              "tag", "mtag", "source", "source", "feature"]),
+        "k": st.sampled_from(["section", "section", "section", "array", "array", "array", "source", "source", "block",
+                              "prop", "group", "frame", "tag", "mtag", "feature"]),
         "t": ops.IDX, "how": st.sampled_from(["name", "id", "index", "neg", "obj"])})
-    unl = st.one_of(S["unlink"], S["del_meta"], S["clear_ext"])
+    unl = gen.weighted([S["unlink"], S["unlink"], S["del_meta"], S["clear_ext"]])
     reop = st.fixed_dictionaries({"op": st.just("reopen"), "mode": st.sampled_from(["a", "r"])})
     return st.fixed_dictionaries({
+        "policy": st.sampled_from(["fresh", "fresh", "cached", "two"]),
         "build": ops.program(BUILD, min_size=0, max_size=12, name_pool=["sig", "sub", "src", "g1", "tag"]),
-        "ops": st.lists(st.one_of(dele, dele, dele, unl, reop), min_size=1, max_size=6),
+        "ops": st.lists(gen.weighted([dele, dele, dele, dele, dele, dele, unl, unl, unl, reop]), min_size=1, max_size=6),
     })
 
 
